@@ -36,6 +36,49 @@ def _match(rows, full):
     return ids
 
 
+def own_part(ck, tier):
+    """rows are returned together with their OWN log-probabilities: the posterior is re-evaluated at every returned row"""
+    from harness.c03 import GaussPost
+    post = GaussPost(2)
+    for kind in ("gibbs", "metropolis", "pca", "hmc", "ensemble"):
+        for temp in ((1.0,) if kind == "ensemble" else (1.0, 2.5)):
+            ch = _mk_chain(kind, 21 + seed())
+            if temp != 1.0:
+                # the chain classes take the temperature at construction: rebuild through the public constructor
+                from inference.mcmc.gibbs import GibbsChain, MetropolisChain
+                from inference.mcmc import PcaChain, HamiltonianChain
+                start = np.array([0.5, -0.25])
+                if kind == "hmc":
+                    ch = HamiltonianChain(posterior=post, grad=post.grad, start=start, epsilon=0.3, temperature=temp, display_progress=False)
+                    ch.steps = 3
+                else:
+                    cls = {"gibbs": GibbsChain, "metropolis": MetropolisChain, "pca": PcaChain}[kind]
+                    ch = cls(posterior=post, start=start, widths=np.array([0.5, 0.5]), temperature=temp, display_progress=False)
+                ch.rng = np.random.default_rng(5)
+                for j, p in enumerate(getattr(ch, "params", []) or []):
+                    p.rng = np.random.default_rng(50 + j)
+            with contextlib.redirect_stdout(io.StringIO()):
+                if kind == "ensemble":
+                    ch.advance(3)            # several iterations stored by ONE call
+                    ch.advance(2)
+                else:
+                    ch.advance(12)
+            cname = type(ch).__name__
+            ck.case(("own", kind, temp))
+            for label, (rows, prbs) in (("get_sample/get_probabilities", (ch.get_sample(burn=0), ch.get_probabilities(burn=0))),
+                                        ("get_sample/get_probabilities thinned", (ch.get_sample(burn=1, thin=3), ch.get_probabilities(burn=1, thin=3))),
+                                        ("get_interval", ch.get_interval(interval=0.6, burn=1, thin=2))):
+                rows, prbs = np.asarray(rows, dtype=float), np.asarray(prbs, dtype=float)
+                want = np.array([post(r) / temp for r in rows])
+                if rows.shape[0] != prbs.shape[0] or not np.allclose(prbs, want, rtol=1e-12, atol=1e-12):
+                    bad = int(np.argmax(np.abs(prbs - want))) if rows.shape[0] == prbs.shape[0] else 0
+                    ck.violation("read-outs stay aligned row for row: every returned log-probability is the row's own (posterior / temperature)",
+                                 {"class": cname, "temperature": temp, "readout": label, "row": rows[bad].tolist() if len(rows) else None,
+                                  "returned_logprob": float(prbs[bad]) if len(prbs) else None, "own_logprob": float(want[bad]) if len(want) else None},
+                                 site=f"{cname}.own_logprob")
+                    break
+
+
 def run(tier):
     ck = Check("C14", tier)
     ck.rule = ("one case per (sampler class, chain length, burn, thin) read-out compared with the TLC selection, and one per "
@@ -134,6 +177,7 @@ def run(tier):
             _grow(ch, kind)
             n_now = int(ch.chain_length)
         ck.sample({"part": "readout", "class": cname, "example": {"n": maxn, "burn": 2, "thin": 3, "spec_ids": table[(maxn, 2, 3)]}})
+    own_part(ck, tier)
     d = scratch("c14_")
     path = os.path.join(d, "trace.ndjson")
     with open(path, "w") as fh:
